@@ -29,7 +29,10 @@ structure ValRec where
   spar : String := ""
   ty : Char := 'u'
   w : Nat := 0
-  pol : Pol := .none
+  pol : Pol := .none          -- the policy *derived* from the frontend rules (used by model and definition)
+  polRep : Pol := .none       -- the policy the implementation reported
+  reqTy : Char := '?'         -- literal leaves / pins: requested type and width
+  reqW : Nat := 0
   err : String := ""     -- "" built, "e" DesignError, "E" InternalError
   deriving Inhabited
 
@@ -42,6 +45,8 @@ structure St where
   netTy : Array CType := #[]
   netName : Array String := #[]
   cycle : Nat := 0
+  blit : Option Nat := none
+  regInit : Array BV4 := #[]   -- seq mode: expected power-on content of every register (from the requested reset value)
   xvHist : Array (Array BV4) := #[]   -- expression values of every stimulus (for the post-processed re-simulation)
   postRuns : Nat := 0
   postValues : Nat := 0
@@ -103,7 +108,7 @@ def St.diff (s : St) (m : String) : St :=
 /-- in C08 mode only the C08 property itself (`class=defined-bit-contradicted`) is reported; the C03 verdicts on the same
     stream (result shapes, unsafe netlists, crashes) belong to `checks/c03.py` -/
 def St.propfail (s : St) (m : String) : St :=
-  if s.c08 ∧ (m.splitOn "class=defined-bit-contradicted").length < 2 then s
+  if s.c08 ∧ (m.splitOn "class=defined-bit-contradicted").length < 2 ∧ (m.splitOn "class=register-power-on-content").length < 2 then s
   else
     let k := msgKey m
     if lookup s.failSeen k < 6 then
@@ -113,6 +118,8 @@ def St.propfail (s : St) (m : String) : St :=
 def polOf (c : String) : Pol :=
   if c == "z" then .zero else if c == "o" then .one else if c == "s" then .sign else .none
 def polOfChar (c : Char) : Pol := polOf (String.singleton c)
+/-- policy letter of a binary operator: `i` = the policy the operand carries -/
+def polAt (c : Char) (carried : Pol) : Pol := if c == 'i' then carried else polOfChar c
 
 def widthBucket (w : Nat) : String :=
   if w == 0 then "0" else if w == 1 then "1" else if w ≤ 8 then "2-8" else if w ≤ 31 then "9-31" else if w ≤ 33 then "32-33"
@@ -120,6 +127,23 @@ def widthBucket (w : Nat) : String :=
 
 def defClass (v : BV4) : String :=
   if v.isEmpty then "empty" else if v.allDef then "defined" else if v.all (· == .x) then "undefined" else "partial"
+
+/-- the expansion policy a value carries, derived from the frontend's rules (never from the implementation's answer):
+    literals: `UInt` zero, `SInt` sign, `BVec`/`Bit` none (`UInt.cpp:39`, `SInt.h:51`, `BVec.h:56`); `ext(x, …, e)` gives `e`
+    (`UInt.cpp:47-95`); slice aliases and casts keep the policy of their source (`BitVector.h:286`, `:75`); `abs` returns
+    `zext(res)`; `x = d; IF … x = a` keeps the policy of `d` (copy constructor, `BitVector.h:66`); every operator result is a
+    fresh `SignalReadPort(node)` with policy none -/
+def derivedPol (vals : Array ValRec) (r : ValRec) : Pol :=
+  let argPol (i : Nat) : Pol := (vals.getD (r.args.getD i 0) {}).pol
+  match r.op with
+  | "lit" => if r.reqTy == 'u' then .zero else if r.reqTy == 's' then .sign else .none
+  | "zext" | "zextby" => .zero | "oext" | "oextby" => .one | "sext" | "sextby" => .sign
+  | "slice" | "upper" | "lower" | "dslice" | "tou" | "tos" | "tov" | "ifprio" => argPol 0
+  | "ifchain" => argPol 1
+  | "sabs" => .zero
+  | _ => .none
+
+def polName : Pol → String | .none => "none" | .zero => "zero" | .one => "one" | .sign => "sign"
 
 /-! ### netlist parsing -/
 
@@ -162,6 +186,7 @@ def parseNode (toks : List String) : Option (NetNode × CType × String) :=
     | ["mux"] => mk (.node .mux cty) "mux"
     | ["prio"] => mk (.node .prio cty) "prio"
     | ["const", v] => mk (.node (.const (BV4.ofString v)) cty) "const"
+    | ["tri", k] => mk (.tristate k.toNat!) "tristate"   -- Node_Pin with an output driver: ins = [data, outputEnable], pad value = env k
     | ["reg"] => mk (.input 0) "reg"     -- register output: state, taken from the implementation (C08 `seq` mode)
     | _ => none
   | _ => none
@@ -211,7 +236,7 @@ def feOp (op : String) (a : List Arg) (p : List Nat) : FE BV4 :=
   let p0 := p.getD 0 0
   match op.splitOn "." with
   | [name, pp] =>
-    let pa := polOfChar (pp.toList.getD 0 'n'); let pb := polOfChar (pp.toList.getD 1 'n')
+    let pa := polAt (pp.toList.getD 0 'n') (apol 0); let pb := polAt (pp.toList.getD 1 'n') (apol 1)
     match isArithName name, isLogicName name, isCmpName name with
     | some aop, _, _ => if aop == .MUL ∧ t 0 == 's' then smul pa pb (v 0) (v 1) else arith aop pa pb (v 0) (v 1)
     | _, some lop, _ => logic lop pa pb (v 0) (v 1)
@@ -245,6 +270,9 @@ def feOp (op : String) (a : List Arg) (p : List Nat) : FE BV4 :=
   | "dbit" => pure (dynBit (v 0) (v 1)) | "dslice" => pure (dynSliceOp (v 0) (v 1) p0)
   | "cat" => pure (cat (a.map (·.v))) | "pack" => pure (pack (a.map (·.v)))
   | "tou" | "tos" | "tov" => pure (v 0)
+  -- read-back of a tristate pin (data, enable, pad) / of a bidirectional pin without output enable (data, pad)
+  | "tri" => pure (evalTristate (v 0).length [some (v 0), some (v 1), some (v 2)])
+  | "tria" => pure (evalTristate (v 0).length [some (v 0), none, some (v 1)])
   | "mux" => muxOp (apol 0) (v 0) ((a.drop 1).map (·.v))
   | "muxz" => muxOp .zero (v 0) ((a.drop 1).map (·.v))
   | "prio" => pure (prioOp (v 0) (pairs ((a.drop 1).map (·.v))))
@@ -273,7 +301,7 @@ def resultTy (op : String) (a : List Arg) : Char :=
     | "sabs" | "cat" | "pack" | "tou" | "shra" | "addc" => 'u'
     | "tos" => 's' | "tov" => 'v'
     | "mux" | "muxz" => (a.getD 1 ⟨'u', .none, []⟩).ty
-    | "prio" | "ifprio" => t0
+    | "prio" | "ifprio" | "tri" | "tria" => t0
     | "ifchain" => (a.getD 1 ⟨'u', .none, []⟩).ty
     | _ => if t0 == 'b' then 'u' else t0
 
@@ -291,7 +319,7 @@ def specOp (op : String) (a : List Arg) (p : List Nat) : Option BV4 :=
     let (x', y', _) ← Spec.norm pa pb x y; pure (if signed then Spec.scmp cop x' y' else Spec.ucmp cop x' y')
   match op.splitOn "." with
   | [name, pp] =>
-    let pa := polOfChar (pp.toList.getD 0 'n'); let pb := polOfChar (pp.toList.getD 1 'n')
+    let pa := polAt (pp.toList.getD 0 'n') (apol 0); let pb := polAt (pp.toList.getD 1 'n') (apol 1)
     match isArithName name, isLogicName name, isCmpName name with
     | some aop, _, _ =>
       if aop == .MUL ∧ t 0 == 's' then
@@ -337,6 +365,8 @@ def specOp (op : String) (a : List Arg) (p : List Nat) : Option BV4 :=
   | "dslice" => some (Spec.sliceOpen (v 0) (v 1).toNat p0)
   | "cat" => some (Spec.concat (a.map (·.v)).reverse) | "pack" => some (Spec.concat (a.map (·.v)))
   | "tou" | "tos" | "tov" => some (v 0)
+  | "tri" => some (if (v 1).bit 0 = .t then v 0 else v 2)   -- driven: the data; not driven: what the outside drives
+  | "tria" => some (v 0)
   | "mux" | "muxz" =>
     let table := (a.drop 1).map (·.v)
     if table.isEmpty then none
@@ -431,7 +461,7 @@ def checkNodes (s : St) (impl : Array BV4) : St := Id.run do
     let r := if isReg then some (impl.getD i []) else evalNetNode s.env.toList vals.toList n
     vals := vals.push r
     let kindName := match n.kind with
-      | .input _ => (if isReg then "reg" else "in") | .signal => "sig"
+      | .input _ => (if isReg then "reg" else "in") | .signal => "sig" | .tristate _ => "tristate"
       | .node k _ => match k with
         | .logic _ => "logic" | .arith _ => "arith" | .compare _ _ => "compare" | .shift _ _ => "shift"
         | .rewire _ => "rewire" | .mux => "mux" | .prio => "prio" | .const _ => "const"
@@ -447,16 +477,26 @@ def checkNodes (s : St) (impl : Array BV4) : St := Id.run do
     | _ => pure ()
   return s
 
-def argsOf (s : St) (xv : Array BV4) (r : ValRec) : List Arg :=
-  r.args.map fun j => let a := s.vals.getD j {}; ⟨a.ty, a.pol, xv.getD j []⟩
+def isTri (op : String) : Bool := op == "tri" || op == "tria"
+
+/-- operand values of value `k`; a tristate / bidirectional pin has the value driven onto its pad as an additional last operand -/
+def argsOf (s : St) (xv : Array BV4) (r : ValRec) (k : Nat) : List Arg :=
+  (r.args.map fun j => let a := s.vals.getD j {}; ⟨a.ty, a.pol, xv.getD j []⟩) ++
+  (if isTri r.op then [⟨r.ty, .none, s.env.getD k []⟩] else [])
 
 /-- frontend model and definition for every operator application of the case -/
 def checkOps (s : St) (xv : Array BV4) (checkSpec : Bool) : St := Id.run do
   let mut s := s
   for k in [0:s.vals.size] do
     let r := s.vals[k]!
+    if r.op == "lit" ∧ r.err == "" then
+      -- a literal leaf must evaluate to the bits that were requested (the definition of a literal), not merely to what it dumped
+      s := { s with specChecks := s.specChecks + 1 }
+      let want := BV4.ofString r.spar
+      if xv.getD k [] != want then
+        s := s.propfail s!"stim={s.stim} val={k} op=literal class=literal-leaf/value type={String.singleton r.reqTy} requested={r.spar} impl={BV4.toString (xv.getD k [])}"
     if r.op == "pin" ∨ r.op == "lit" ∨ r.op == "regq" ∨ r.err != "" then continue
-    let a := argsOf s xv r
+    let a := argsOf s xv r k
     let impl := xv.getD k []
     s := { s with feEvals := s.feEvals + 1 }
     match feOp r.op a r.params with
@@ -498,8 +538,13 @@ def checkShapes (s : St) : St := Id.run do
   let mut s := s
   for k in [0:s.vals.size] do
     let r := s.vals[k]!
+    if r.err == "" ∧ r.polRep != r.pol then
+      s := s.propfail s!"val={k} op={opBase r.op} class=expansion-policy/expected-{polName r.pol} full={r.op} reported={polName r.polRep}: the value carries another expansion policy than the frontend rules give"
+    if (r.op == "lit" ∨ r.op == "pin") ∧ r.err == "" ∧ (r.w != r.reqW ∨ r.ty != r.reqTy) then
+      s := s.propfail s!"val={k} op={if r.op == "lit" then "literal" else "pin"} class=literal-leaf/shape requested={String.singleton r.reqTy}{r.reqW} impl={String.singleton r.ty}{r.w}"
     if r.op == "pin" ∨ r.op == "lit" ∨ r.op == "regq" then continue
-    let a : List Arg := r.args.map fun j => let x := s.vals.getD j {}; ⟨x.ty, x.pol, List.replicate x.w .f⟩
+    let a : List Arg := (r.args.map fun j => let x := s.vals.getD j {}; ⟨x.ty, x.pol, List.replicate x.w .f⟩) ++
+      (if isTri r.op then [⟨r.ty, .none, List.replicate r.w .f⟩] else [])
     s := { s with ops := s.ops + 1, opHist := bump s.opHist (opBase r.op), widthHist := bump s.widthHist (widthBucket r.w) }
     let fe := feOp r.op a r.params
     if r.err != "" then
